@@ -265,15 +265,36 @@ def gen_igspaint():
                      ('VTColor', 'if let Some(pen) = REGISTER_TO_PEN.get(parameters[1] as usize) {')]:
         if pat not in bodies[arm]:
             raise ExtractError(f'{arm}: index guard `{pat}` is gone')
-    b = norm(fn_body(p, r'fn set_pixel\(&mut self, x: i32, y: i32, line_color: u8\) \{', 'set_pixel'))
+    # (the observation hook `VERIF_PIXEL_OPS.fetch_add(..)` at the top of set_pixel / get_pixel is cfg(icy_engine_verif) only)
+    hook = '#[cfg(icy_engine_verif)] VERIF_PIXEL_OPS.fetch_add(1, std::sync::atomic::Ordering::Relaxed); '
+    b = norm(fn_body(p, r'fn set_pixel\(&mut self, x: i32, y: i32, line_color: u8\) \{', 'set_pixel')).replace(hook, '', 1)
     if b != 'let offset = (y * self.get_resolution().width + x) as usize; if offset >= self.screen.len() { return; } self.screen[offset] = line_color;':
         raise ExtractError('set_pixel changed')
-    b = norm(fn_body(p, r'fn get_pixel\(&mut self, x: i32, y: i32\) -> u8 \{', 'get_pixel'))
+    b = norm(fn_body(p, r'fn get_pixel\(&mut self, x: i32, y: i32\) -> u8 \{', 'get_pixel')).replace(hook, '', 1)
     if b != 'let offset = (y * self.get_resolution().width + x) as usize; if offset >= self.screen.len() { return 0; } self.screen[offset]':
         raise ExtractError('get_pixel changed')
     b = norm(fn_body(p, r'fn fill_rect\(&mut self, mut x0: i32, mut y0: i32, mut x1: i32, mut y1: i32\) \{', 'fill_rect'))
     if 'x0 = x0.max(0); y0 = y0.max(0); x1 = x1.min(res.width - 1); y1 = y1.min(res.height - 1); for y in y0..=y1 { for x in x0..=x1 { self.fill_pixel(x, y); } }' not in b:
         raise ExtractError('fill_rect: clipping to the screen is gone')
+    # the loop bounds of the three blits: the cost functions of Model/IgsCost.lean (rounds = rows x columns) and the
+    # theorems igs_blit_*_cost rely on the clamps to the resolution / the early exits at the screen edge
+    for fn, sig, body in [
+        ('blit_screen_to_screen', r'fn blit_screen_to_screen\(&mut self, _write_mode: i32, from: Position, to: Position, dest: Position\) \{',
+         'let res = self.get_resolution(); let width = (to.x - from.x).min(res.width); let height = (to.y - from.y).min(res.height); '
+         'for y in 0..height { for x in 0..width { let color = self.get_pixel(from.x + x, from.y + y); self.set_pixel(dest.x + x, dest.y + y, color); } }'),
+        ('blit_screen_to_memory', r'fn blit_screen_to_memory\(&mut self, _write_mode: i32, from: Position, to: Position\) \{',
+         'let res = self.get_resolution(); let width = (to.x - from.x).min(res.width); let height = (to.y - from.y).min(res.height); '
+         'self.screen_memory_size = Size::new(width, height); self.screen_memory.clear(); '
+         'for y in from.y..from.y + height { for x in from.x..from.x + width { let color = self.get_pixel(x, y); self.screen_memory.push(color); } }'),
+        ('blit_memory_to_screen', r'fn blit_memory_to_screen\(&mut self, _write_mode: i32, from: Position, to: Position, dest: Position\) \{',
+         'let width = to.x - from.x; let height = to.y - from.y; let res = self.get_resolution(); '
+         'for y in 0..height { let yp = y + from.y; if dest.y + y >= res.height { break; } for x in 0..width { let xp = x + from.x; '
+         'if dest.x + x >= res.width { break; } let offset = yp as i64 * width as i64 + xp as i64; '
+         'if let Some(color) = usize::try_from(offset).ok().and_then(|o| self.screen_memory.get(o).copied()) { self.set_pixel(dest.x + x, dest.y + y, color); } } }'),
+    ]:
+        got = norm(strip_comments(fn_body(p, sig, fn)))
+        if got != body:
+            raise ExtractError(f'{fn}: loop bounds / body changed (the blit cost theorems rely on them): {got}')
     b = norm(fn_body(p, r'fn get_picture_data\(&mut self\) -> Option<\(Size, Vec<u8>\)> \{', 'igs get_picture_data'))
     if b != ('let mut pixels = Vec::new(); for i in &self.screen { let (r, g, b) = self.pen_colors[*i as usize].get_rgb(); pixels.push(r); pixels.push(g); pixels.push(b); '
              'if r == 0 && g == 0 && b == 0 { pixels.push(0); } else { pixels.push(255); } } Some((self.get_resolution(), pixels))'):
